@@ -5,6 +5,7 @@ package main
 // the cooperative scheduler, environment stubs, and the vx* harness API).
 
 import (
+	"encoding/json"
 	"fmt"
 	"go/types"
 	"math"
@@ -221,6 +222,28 @@ func init() {
 
 		"internal/abi.NoEscape":          func(fr *frame, a []value) value { return a[0] },
 		"(*strings.Builder).copyCheck":   extNop,
+
+		"github.com/tidwall/gjson.fillIndex": extNop,
+		"encoding/json.Marshal": func(fr *frame, a []value) value {
+			// only the concrete []int / []byte-free uses of the code base
+			it := a[0].(iface)
+			if sl, ok := it.v.([]value); ok {
+				out := make([]int64, len(sl))
+				for k, e := range sl {
+					if _, isSym := e.(sym); isSym {
+						panic(unsupported("json.Marshal of symbolic data"))
+					}
+					out[k] = asInt64(e)
+				}
+				b, _ := json.Marshal(out)
+				r := make([]value, len(b))
+				for k := range b {
+					r[k] = b[k]
+				}
+				return tuple{r, iface{}}
+			}
+			panic(unsupported("json.Marshal of " + it.t.String()))
+		},
 
 		// ---- bytealg
 		"internal/bytealg.IndexByte":       extIndexByte,
